@@ -160,7 +160,7 @@ def schedules(ctx):
     G, H = 'GEOPHIRES', 'HIP-RA-X'
     if ctx.quick:
         combos = [(1, 1, G), (3, 2, H), (16, 4, G), (17, 16, G), (40, 16, H), (40, 32, G), (40, 1, G), (120, 16, H), (300, 16, G),
-                  (40, 2, H), (16, 32, G), (300, 8, H)]
+                  (40, 2, H), (16, 32, G), (300, 8, H), (300, 32, H)]
     else:
         combos = [(i, w, G if (i + w) % 3 else H) for i in (1, 3, 16, 17, 40) for w in (1, 2, 4, 16, 32)] + \
                  [(300, 16, G), (300, 32, H), (300, 4, G), (1000, 16, G), (1000, 32, H), (120, 16, G), (120, 2, H),
@@ -179,7 +179,10 @@ def schedules(ctx):
             kinds = ['uniform', 'normal', 'triangular', 'lognormal', 'binomial'] if program == 'GEOPHIRES' else \
                 ['uniform', 'normal', 'triangular', 'lognormal']
         st = mc.make_settings(rng, program, iters, failure=failure, kinds=kinds, n_inputs=5 if kinds else None)
-        plans.append((st, w, rng.choice([0.0, 0.004, 0.02])))
+        delay = rng.choice([0.0, 0.004, 0.02])
+        if iters >= 300 and w == 32 and program == H:
+            delay = 0.03          # stress run: many fast iterations contending for the lock, long holds -> lock timeouts
+        plans.append((st, w, delay))
     return plans
 
 
